@@ -1,5 +1,7 @@
 """C14: calling a script function from Go equals calling it inside the script (UgoSem + family inv)."""
+import json
 from checks import semcommon
+from lib import vlib
 
 RULE = ("histories: 7 script functions (counter closure writing a global, variadic, recursive, throwing, importing and mutating a "
         "module, try/finally with logging, one that re-enters the host) x every sequence of three calls each made in the script, "
@@ -10,8 +12,42 @@ RULE = ("histories: 7 script functions (counter closure writing a global, variad
 def run(ctx):
     semcommon.run_sem(ctx, "UgoSemFam_c14", ["default", "noopt"] if ctx.quick else ["default", "noopt", "default+rt", "noopt+twice"],
                       nontrivial=lambda r: r["id"]["f"] == "invseq" or any(h != "in" for h in r["id"]["how"]), label="c14", sample_every=40)
+    # failures: the recovery matrix of UgoPanic (C06) run with SetRecover(true); the outcome of a function called from Go
+    # must be the outcome of the same function called in the script (pairs of contexts InvokePairs, invariant InvokeSame)
+    out = ctx.path("matrix.ndjson")
+    ctx.tlc("UgoPanic", "UgoPanic", env=dict(OUT=out), timeout=900, name="failures")
+    line = json.loads(open(out).read().split("\n")[1])
+    if isinstance(line, str):       # CSVWrite quotes the JSON text
+        line = json.loads(line)
+    pairs = [tuple(p) for p in line]
+    res = ctx.path("c06-res.ndjson")
+    ctx.vh("c06", out, res, timeout=3000, env=dict(VH_C06_OBS=1))
+    obs = {}
+    for r in vlib.read_ndjson(res):
+        if r.get("kind") == "obs" and r["case"]["Depth"] == "shallow":
+            obs[(r["case"]["Kind"], r["case"]["Ctx"], r["args"])] = r
+    npairs = 0
+    for (kind, cx, ai), r in sorted(obs.items()):
+        for a, b in pairs:
+            if cx != a or (kind, b, ai) not in obs:
+                continue
+            npairs += 1
+            ctx.evaluations += 2
+            ctx.traces_validated += 1
+            ctx.nontrivial.add("fail:%s:%s:%s" % (kind, b, ai))
+            o2 = obs[(kind, b, ai)]
+            if r["obs"] != o2["obs"]:
+                ctx.violation("fail|%s|%s|%s" % (kind, b, ai), "failure %s, argument set %s, recovery on: called in the script (%s) the outcome is %s, called from Go (%s) it is %s\n%s" % (kind, ai, a, r["obs"], b, o2["obs"], o2.get("src", "")),
+                              dict(kind="fail", failure=kind, inscript=a, fromgo=b, args=ai, src=o2.get("src")))
+    if npairs == 0:
+        raise vlib.Inconclusive("no failure pairs compared")
+    ctx.cov["failure_pairs"] = npairs
     ctx.exhaustive = True
     ctx.assumptions += ["the host functions cbcall / cbcall2 (harness/cmd/vh/sem.go hostCall) use NewInvoker/Acquire/Invoke/Release as stdlib callbacks do",
                         "Go-side calls with too few or too many arguments are not generated (lenient by design)"]
 
-replay = semcommon.replay_sem
+def replay(ctx, rec):
+    if rec["case"].get("kind") == "fail":
+        print(json.dumps(rec["case"], indent=1)[:3000])
+        return 1
+    return semcommon.replay_sem(ctx, rec)
